@@ -1201,6 +1201,7 @@ func Run(tier, replay string) {
 	// (T)
 	c.judgeRecords()
 
+	rep.TracesValidated += c.vectors // every vector was replayed into the real code and judged
 	rep.Extra["llvm_as_runs"] = c.llvmRuns
 	rep.Extra["module_shapes_confirmed_by_llvm_up_front"] = c.modLLVM
 	if c.suppressed > 0 {
